@@ -188,7 +188,8 @@ class SchemaSpec:
         return "%s%s: %s" % (fname, args, tstr(f.type))
 
 
-def gen_schema(st, want_mutation=False, small=False):
+def gen_schema(st, want_mutation=False, small=False,
+               want_subscription=False):
     """Draw a schema spec.  ``st`` is a Stream."""
     spec = SchemaSpec()
     n_obj = 2 + st.below(2 if small else 4, "n_obj")
@@ -318,6 +319,21 @@ def gen_schema(st, want_mutation=False, small=False):
         spec.objects["Mutation"] = {"fields": mfields, "interfaces": []}
         spec.mutation = "Mutation"
 
+    if want_subscription:
+        sfields = []
+        for i in range(2):
+            name = "s%d" % i
+            if st.chance(1, 3, "sleaf"):
+                base = LEAF_NAMES[st.below(len(LEAF_NAMES), "sleaft")]
+            else:
+                base = composite_targets[
+                    st.below(len(composite_targets), "st")
+                ]
+            spec.fields[name] = FieldDef(name, draw_type(base), draw_args())
+            sfields.append(name)
+        spec.objects["Subscription"] = {"fields": sfields, "interfaces": []}
+        spec.subscription = "Subscription"
+
     # -- behaviours, type resolution style -----------------------------------
     spec.objrepr = ("obj", "dict")[st.below(2, "objrepr")]
     for tname, tdef in spec.objects.items():
@@ -327,7 +343,8 @@ def gen_schema(st, want_mutation=False, small=False):
                 b = "sync"
             if b == "default" and spec.objrepr == "dict":
                 b = "sync"
-            if b == "default" and tname in ("Query", "Mutation"):
+            if b == "default" and tname in ("Query", "Mutation",
+                                            "Subscription"):
                 b = "sync"  # root value is None
             spec.behaviours[(tname, f)] = b
     for aname in list(spec.interfaces) + list(spec.unions):
@@ -691,8 +708,22 @@ class OpGen:
         st = self.st
         op = self.op
         op.kind = kind
-        op.root_type = self.spec.query if kind == "query" else \
-            self.spec.mutation
+        op.root_type = {"query": self.spec.query,
+                        "mutation": self.spec.mutation,
+                        "subscription": self.spec.subscription}[kind]
+        if kind == "subscription":
+            which = self.features.get("sub_field", "s0")
+            fdef = self.spec.fields[which]
+            alias, args, kwargs = self._argset_for(fdef)
+            sel = None
+            if self.spec.is_composite(named(fdef.type)):
+                sel = self.gen_selset(named(fdef.type), self.max_depth - 1)
+            f = FieldSel(which, alias=alias, args=args, kwargs=kwargs,
+                         sel=sel)
+            f.ptype = op.root_type
+            op.sel = [f]
+            op.name = "Sub" if st.chance(1, 2, "named") else None
+            return op
         if kind == "mutation":
             # 1..5 root fields, each possibly repeated / aliased / skipped
             sels = []
